@@ -35,17 +35,34 @@ def int_like(t):
     return False
 
 
-def bound_params(f):
-    """[(name, local id, type)] integer-valued parameters (scalars, slices/vectors/options of integers) taken by value or shared reference"""
+def param_table(f):
+    """[(position token `#i`, local id, type, source name)] for every binding of the parameter list, in order.
+    Tables are keyed by POSITION so that renaming a parameter does not change a verdict."""
     out = []
+    i = 0
     for p in f.get('params', []):
         for b in pat_bindings(p):
-            t = b.get('t') or ''
-            if t.startswith('&mut '):
-                continue            # running offsets / counters, not declared bounds
-            if int_like(t):
-                out.append((b['n'], b['i'], t))
+            out.append((f'#{i}', b['i'], b.get('t') or '', b['n']))
+            i += 1
     return out
+
+
+def bound_params(f):
+    """[(position token, local id, type)] integer-valued parameters (scalars, slices/vectors/options of integers) taken by value or shared reference"""
+    out = []
+    for tok, i, t, n in param_table(f):
+        if t.startswith('&mut '):
+            continue            # running offsets / counters, not declared bounds
+        if int_like(t):
+            out.append((tok, i, t))
+    return out
+
+
+def param_name(f, tok):
+    for t, i, ty, n in param_table(f):
+        if t == tok:
+            return n
+    return tok
 
 
 class ValFlow:
